@@ -25,7 +25,7 @@ RULE = ("2 of 3 runs: clock sweep - one bundled tariff x one of the 14 calendar-
         "distinct = (tariff, calendar type, period, start class, day-of-year bucket)")
 PROBES = ["lookups", "near_breakpoint", "season_edge_crossed", "weekday_class_midnight", "year_wrap_crossed", "leap_day",
           "world_runs", "get_prices_start0_later", "get_prices_explicit_start", "demand_charge_query", "energy_cost_checked",
-          "winter_pge", "aware_two_zone_lookup", "explicit_tariff_cost_checked"]
+          "winter_pge", "aware_two_zone_lookup", "explicit_tariff_cost_checked", "price_vector_scribbled"]
 FAULT_DIMENSION = "none - the simulated clock is swept across the calendar (inputs, not faults)"
 REAL_VS_STUB = "real: TimeOfUseTariff + bundled JSON files, Interface.get_prices/get_demand_charge, analysis.energy_cost/demand_charge, Simulator; reference reads the JSON files itself"
 ASSUMPTIONS = ["prices compared exactly (they are copied from the file, never computed)", "costs within 1e-9 relative"]
@@ -239,7 +239,16 @@ def check_world(sc):
             n = r.randint(1, 30)
             i = r.choice([None, 0, t, r.randint(0, t + 5)])
             try:
-                got = list(iface.get_prices(n, start=i)) if i is not None else list(iface.get_prices(n))
+                arr = iface.get_prices(n, start=i) if i is not None else iface.get_prices(n)
+                got = [float(x) for x in arr]
+                try:
+                    # the party works on what it was handed (e.g. converts $/kWh to $/period in place): later queries must
+                    # still return the tariff's prices
+                    arr *= 0.0
+                    arr -= 1.0
+                    pre.probe("price_vector_scribbled")
+                except Exception:
+                    pass
                 dc = iface.get_demand_charge(start=i) if i is not None else iface.get_demand_charge()
             except Exception as x:
                 from ..driver import classify_exception
